@@ -324,6 +324,16 @@ def dupInto (S : Schema) (o : DupOpts) (single : Bool) (parent : DNode) (sibs : 
   let kids := copies.foldl (fun acc x => insertWith S base acc x) parent.kids
   (parent.setKids kids).setDflt (parent.flags.dflt && copies.all (·.flags.dflt))
 
+/-- the same with `LYD_DUP_WITH_PARENTS` and a node that sits deeper: `lyd_dup_get_local_parent` copies the parents between the
+    node and the ancestor whose schema is the given parent's (`mids`, nearest first; shallow copies: a list keeps its keys),
+    links the chain into the given parent FIRST, and the copies then go into the nearest copied parent; `LYD_DEFAULT` is
+    cleared upwards, through the given parent, as soon as a non-default node hangs below.  The given parent may well hold an
+    instance of the copied intermediate parent already: it gets a second one. -/
+def dupIntoChain (S : Schema) (o : DupOpts) (single : Bool) (parent : DNode) (mids sibs : List DNode) : DNode :=
+  match dupTop S { o with withParents := true } single mids sibs with
+  | [root] => (parent.setKids (insertNode S parent.kids root)).setDflt (parent.flags.dflt && root.flags.dflt)
+  | _ => parent
+
 /-! ## addressing nodes by their position in the dump (driver) -/
 
 /-- the node with DFS pre-order index `k`: (its ancestors nearest first, the node and its following siblings) -/
